@@ -26,6 +26,9 @@ def intervalOp (name : String) (model : List Intv → List Intv → List Intv)
     if b.isEmpty || a.isEmpty then "empty" else "nonempty"]
   if res == ["PANIC"] then
     return { corr := corrOf (fmtIntvs m) "PANIC", oracle := some "panic", tags }
+  if res.any (·.startsWith "!!") then
+    return { corr := corrOf (fmtIntvs m) istr,
+             oracle := some s!"the operation modified an operand or a result it had returned before ({res.getLast?.getD ""})", tags }
   let im ← runP pIntvs res
   let pts := samplePoints [l1, l2, im]
   let bad := pts.find? fun x => memB x im != spec (memB x l1) (memB x l2)
